@@ -338,3 +338,131 @@ func (P *Prog) EvalJSONClause(c *Clause, pkgPath string) (ok bool, why string, s
 	}
 	return why == "", why, j.steps, j.usedTrusted(), nil
 }
+
+// jsonReplay builds a test that encodes and decodes witness values of the type (all slices and maps empty but
+// non-nil, and all fields non-zero) and compares them with reflect.DeepEqual.
+func (P *Prog) jsonReplay(c *Clause, pkgPath string) *ReplaySpec {
+	if c.Kind != "roundtrip" {
+		return nil
+	}
+	t, err := P.resolveType(strings.TrimSpace(c.Text), pkgPath)
+	if err != nil {
+		return nil
+	}
+	// the test lives in the package of the contract file; the type is written relative to it
+	pkg := P.PkgByPath[pkgPath]
+	if pkg == nil {
+		return nil
+	}
+	imports := map[string]string{}
+	qual := func(p *types.Package) string {
+		if p.Path() == pkgPath {
+			return ""
+		}
+		alias := "p" + fmt.Sprint(len(imports))
+		for a, path := range imports {
+			if path == p.Path() {
+				return a
+			}
+		}
+		imports[alias] = p.Path()
+		return alias
+	}
+	typeText := types.TypeString(t, qual)
+	var imp strings.Builder
+	for a, path := range imports {
+		fmt.Fprintf(&imp, "\t%s %q\n", a, path)
+	}
+	src := fmt.Sprintf(`package %s
+
+import (
+	"encoding/json"
+	"reflect"
+	"testing"
+	"time"
+%s)
+
+var _ = time.Now
+
+func gocvFill(v reflect.Value, nonzero bool, depth int) {
+	if depth > 8 {
+		return
+	}
+	switch v.Kind() {
+	case reflect.Ptr:
+		if v.Type().Elem().Kind() == reflect.Struct || nonzero {
+			v.Set(reflect.New(v.Type().Elem()))
+			gocvFill(v.Elem(), nonzero, depth+1)
+		}
+	case reflect.Struct:
+		if v.Type() == reflect.TypeOf(time.Time{}) {
+			if nonzero {
+				v.Set(reflect.ValueOf(time.Unix(1700000000, 0).UTC()))
+			}
+			return
+		}
+		for i := 0; i < v.NumField(); i++ {
+			if v.Field(i).CanSet() {
+				gocvFill(v.Field(i), nonzero, depth+1)
+			}
+		}
+	case reflect.Slice:
+		if nonzero {
+			s := reflect.MakeSlice(v.Type(), 1, 1)
+			gocvFill(s.Index(0), nonzero, depth+1)
+			v.Set(s)
+		} else {
+			v.Set(reflect.MakeSlice(v.Type(), 0, 0))
+		}
+	case reflect.Map:
+		m := reflect.MakeMap(v.Type())
+		if nonzero {
+			k := reflect.New(v.Type().Key()).Elem()
+			gocvFill(k, true, depth+1)
+			e := reflect.New(v.Type().Elem()).Elem()
+			gocvFill(e, true, depth+1)
+			m.SetMapIndex(k, e)
+		}
+		v.Set(m)
+	case reflect.String:
+		if nonzero {
+			v.SetString("x")
+		}
+	case reflect.Bool:
+		v.SetBool(nonzero)
+	case reflect.Int, reflect.Int8, reflect.Int16, reflect.Int32, reflect.Int64:
+		if nonzero {
+			v.SetInt(7)
+		}
+	case reflect.Uint, reflect.Uint8, reflect.Uint16, reflect.Uint32, reflect.Uint64:
+		if nonzero {
+			v.SetUint(7)
+		}
+	case reflect.Interface:
+		if nonzero && v.NumMethod() == 0 {
+			v.Set(reflect.ValueOf(int64(7)))
+		}
+	}
+}
+
+// generated by gocv: witnesses of the JSON round-trip judgement for %s
+func TestGocvReplayRoundTrip(t *testing.T) {
+	for _, nonzero := range []bool{false, true} {
+		var v %s
+		gocvFill(reflect.ValueOf(&v).Elem(), nonzero, 0)
+		bz, err := json.Marshal(v)
+		if err != nil {
+			t.Fatalf("marshal: %%v", err)
+		}
+		var w %s
+		if err := json.Unmarshal(bz, &w); err != nil {
+			t.Fatalf("unmarshal %%s: %%v", bz, err)
+		}
+		if !reflect.DeepEqual(v, w) {
+			t.Fatalf("round trip changed the value (nonzero=%%v)\nbefore: %%#v\njson:   %%s\nafter:  %%#v", nonzero, v, bz, w)
+		}
+	}
+}
+`, pkg.Name(), imp.String(), typeText, typeText, typeText)
+	return &ReplaySpec{PkgPath: pkgPath, TestName: "TestGocvReplayRoundTrip", Source: src, What: "witness values of " + typeText + " (empty non-nil slices/maps; all fields non-zero)"}
+}
